@@ -2,7 +2,7 @@
 C13: `version_frozen` — every operation except the explicit delete of that version keeps a row
 that has a version id (frozen fields), in a versioned (Enabled/Suspended) bucket.
 -/
-import Pithos.Lemmas.S3Frozen
+import Pithos.Lemmas.S3FrozenDel
 
 namespace Pithos.S3
 
@@ -105,8 +105,10 @@ theorem good_putRow {q : Quirks} {b : String} {r : Row} {s : State} {bk bk1 : Bu
     exact good_update hfb (keeps_self hr) hfb' hX2 hX1 (fun h => absurd h hbb)
 
 theorem version_frozen_T (q : Quirks) (hq : q.appendLatestInPlace = false) (s : State) (hinv : Inv s) (op : Op)
-    (b : String) (bk : Bucket) (r : Row) (hfb : findBucket s b = some bk) (hver : bk.ver ≠ .off)
-    (hr : r ∈ bk.rows) (hv : r.vid ≠ none) (hnd : ∀ b' k vid im, op ≠ .del b' k vid im) :
+    (b : String) (bk : Bucket) (r : Row) (hfb : findBucket s b = some bk)
+    (hr : r ∈ bk.rows) (hv : r.vid ≠ none)
+    (hdel : ∀ b' k' vid im, op = .del b' k' vid im → b' = b →
+      ¬(k' = r.key ∧ vid = some r.vid) ∧ (vid = none → bk.ver = .off → k' ≠ r.key)) :
     Good q b r (stepT q s op).1 := by
   have g0 : Good q b r s := ⟨bk, hfb, keeps_self hr⟩
   have hbinv := hinv bk (findBucket_mem hfb)
@@ -192,7 +194,18 @@ theorem version_frozen_T (q : Quirks) (hq : q.appendLatestInPlace = false) (s : 
     cases hfb' : findBucket s b' with
     | none => exact g0
     | some bk1 => simp only []; cases resolve bk1 k vid <;> exact g0
-  | del b' k vid im => exact absurd rfl (hnd b' k vid im)
+  | del b' k' vid im =>
+    simp only [stepT]
+    cases hfb' : findBucket s b' with
+    | none => exact g0
+    | some bk1 =>
+      simp only []
+      rcases deleteOp_keeps q s bk1 k' vid im r with h | ⟨X, h1, h2, h3⟩
+      · exact good_same hfb (keeps_self hr) h
+      · refine good_update hfb (keeps_self hr) hfb' h2 h1 (fun hbb hb1 => ?_)
+        subst hb1
+        obtain ⟨d1, d2⟩ := hdel b' k' vid im rfl hbb
+        exact h3 ⟨hbinv, hr, hv, d2, d1⟩
   | copy sb sk svid db dk rm rt o =>
     simp only [stepT]
     cases hsb : findBucket s sb with
